@@ -37,7 +37,7 @@ CHECKS = {
    note="trusted: harness packet generator and comparison; block boundaries are taken from the simulated file's length after each flushed packet; libpcap is a second reader for single-link-type files only",
    tech="deterministic simulation of file and stream with crash-point enumeration (cut at every byte) and short-read injection"),
  "C15": dict(cat="exploration", engine="sim-disk", ref="4 C15",
-   text="seeded structurally valid pcap / pcapng / snoop inputs (harness-built, both byte orders, every field a named mutation target) with boundary-value field corruptions, consistent inflation of all the length fields of one record or block (a huge claim that passes the consistency checks, the block length sometimes a few words off), sections with fewer interfaces than their predecessor, random tails, truncations and gzip wrapping are read through fault-free, chunked and failing simulated streams with the copying and zero-copy calls; oracles: no panic, no spin at EOF, allocation per call in proportion to bytes present plus declared snap length, data length == capture length <= length, results independent of chunking, prefix property and surfacing of an injected read error. The thorough tier sweeps every error offset for inputs up to 512 bytes.",
+   text="seeded structurally valid pcap / pcapng / snoop inputs (harness-built, both byte orders, every field a named mutation target) with boundary-value field corruptions, consistent inflation of all the length fields of one record or block (a huge claim that passes the consistency checks, the block length sometimes a few words off), sections with fewer interfaces than their predecessor, random tails, truncations and gzip wrapping are read through fault-free, chunked and failing simulated streams with the copying and zero-copy calls (pcapng also with every reader option, a SkipSection call between reads and the accessors Interface/Name/SectionInfo/Resolution after every read); oracles: no panic, no spin at EOF, allocation per call in proportion to bytes present plus declared snap length, data length == capture length <= length, results independent of chunking, prefix property and surfacing of an injected read error. The thorough tier sweeps every error offset for inputs up to 512 bytes.",
    note="trusted: harness file builders and oracles; allocation measured with runtime/metrics and confirmed with runtime.ReadMemStats before it is reported; children run under a 3 GiB address-space limit; a child that dies of out-of-memory or a run that does not finish is re-executed alone and, if it fails again, reported as allocation/out-of-memory resp. no-hang/run-does-not-finish with a by-seed replay",
    tech="deterministic simulation of the byte stream with short-read, data+EOF and read-error injection over seeded structure-aware corruptions"),
  "C16": dict(cat="exploration", engine="bubble", ref="4 C16",
